@@ -54,7 +54,7 @@ func (pr *placeholderResolver) Resolve(doc dom.OverlayDocument) *PlaceholderReso
 				if ph == p2 {
 					coords := doc.Search(dom.SearchEqual(ph))
 					pr.onResolutionFailureFn(k, ph, coords)
-					if !slices.Contains(failedKeys, ph) {
+					if !slices.Contains(failedKeys, k) {
 						failedKeys = append(failedKeys, k)
 						actualValues[k] = v
 						coordsMap[k] = coords
